@@ -1,0 +1,5 @@
+//go:build !verif
+
+package ggql
+
+func verifYield(string) {}
